@@ -40,15 +40,17 @@ const (
 	body200000
 	bodyBadFingerprint
 	bodyAbsentFingerprint
+	bodyRelayPatternMismatch
+	bodyRelayPatternAbsent
 	nBodies
 )
 
-var bodyName = []string{"empty", "valid", "valid-without-version-line", "legacy", "legacy-bad-json", "mutated-version", "truncated", "mutated-types", "garbage", "99999B", "100000B", "100001B", "200000B", "bad-fingerprint", "absent-bridge-fingerprint"}
+var bodyName = []string{"empty", "valid", "valid-without-version-line", "legacy", "legacy-bad-json", "mutated-version", "truncated", "mutated-types", "garbage", "99999B", "100000B", "100001B", "200000B", "bad-fingerprint", "absent-bridge-fingerprint", "relay-pattern-mismatch", "relay-pattern-absent"}
 
 func validBodyFor(path string) string {
 	switch {
 	case strings.HasPrefix(path, "/proxy"):
-		return `{"Sid":"c14sid","Version":"1.3","Type":"standalone","NAT":"unrestricted","Clients":0,"AcceptedRelayPattern":""}`
+		return `{"Sid":"c14sid","Version":"1.3","Type":"standalone","NAT":"unrestricted","Clients":0,"AcceptedRelayPattern":"snowflake.torproject.net$"}`
 	case strings.HasPrefix(path, "/answer"):
 		return `{"Version":"1.3","Sid":"c14sid","Answer":"{\"type\":\"answer\",\"sdp\":\"x\"}"}`
 	default:
@@ -100,9 +102,17 @@ func c14Body(kind int, path string) []byte {
 		return []byte("1.0\n{\"offer\":\"o\",\"nat\":\"unknown\",\"fingerprint\":\"zz\"}")
 	case bodyAbsentFingerprint:
 		return []byte("1.0\n{\"offer\":\"o\",\"nat\":\"unknown\",\"fingerprint\":\"" + fpAbsent + "\"}")
+	case bodyRelayPatternMismatch:
+		// a proxy whose accepted relay pattern does not cover the broker's: refused with a normal response
+		return []byte(strings.Replace(v, `"AcceptedRelayPattern":"snowflake.torproject.net$"`, `"AcceptedRelayPattern":"example.org$"`, 1))
+	case bodyRelayPatternAbsent:
+		// a proxy too old to send the member at all
+		return []byte(strings.Replace(v, `,"AcceptedRelayPattern":"snowflake.torproject.net$"`, ``, 1))
 	}
 	return nil
 }
+
+var c14Pattern = "snowflake.torproject.net$"
 
 // c14Mux registers the handlers exactly as main() does on http.DefaultServeMux.
 func c14Mux(w *world) *http.ServeMux {
@@ -224,6 +234,9 @@ func init() {
 			x.Outcome(fmt.Sprintf("state=%d %s", cw.state, strings.Join(ds, " ; ")))
 			w := newWorld()
 			cw.w = w
+			// as in production (-allowed-relay-pattern, -default-relay-pattern)
+			w.ctx.allowedRelayPattern = c14Pattern
+			w.ctx.presumedPatternForLegacyClient = c14Pattern
 			mux := c14Mux(w)
 			if cw.state > 0 {
 				beh := ansPrompt
@@ -231,6 +244,7 @@ func init() {
 					beh = ansNever
 				}
 				p := w.addProxy(NATUnrestricted, "standalone", 0, 0, beh)
+				p.pattern = &c14Pattern
 				vs.GoRole("proxy0", vs.RoleDaemon, func() { w.runProxy(p) })
 			}
 			vs.GoRole("requests", vs.RoleRequest, func() {
@@ -242,6 +256,7 @@ func init() {
 			// afterwards the broker must still work: a full happy path
 			vs.Sleep(100 * time.Second)
 			pp := w.addProxy(NATUnrestricted, "standalone", 0, 0, ansPrompt)
+			pp.pattern = &c14Pattern
 			pp.sid = "probe-sid"
 			vs.GoRole("probe-proxy", vs.RoleDaemon, func() { w.runProxy(pp) })
 			vs.Sleep(time.Second)
@@ -287,6 +302,17 @@ func init() {
 			x.Outcome(strings.Join(oc, ",") + " probe=" + cw.probeOK)
 			if cw.probeOK != "ok" && cw.probeOK != "" {
 				x.Fail("later-requests", "broker-broken-afterwards", "after the requests a fresh proxy+client happy path fails: %s", cw.probeOK)
+			}
+			if cw.probeOK == "" {
+				// the probe never finished although the horizon leaves it 200 s: unless a request of the
+				// scenario itself is still blocked (reported above), the broker mishandles later requests
+				blocked := false
+				for _, t := range x.Threads() {
+					blocked = blocked || (t.Role == vs.RoleRequest && !t.Done)
+				}
+				if !blocked {
+					x.Fail("later-requests", "later-requests-never-complete", "after the requests (all answered) a fresh proxy poll + client offer never completes")
+				}
 			}
 		},
 	})
